@@ -49,7 +49,8 @@ SPEC = {
     "id": "C13",
     "gens": ["EvalTable"],
     "lean_modules": ["RsslVerif.Thm.C13"],
-    "theorems": [T + n for n in ["consteval_agrees", "div_mod_zero_not_constant", "literal_exact", "literal_neg_exact"]],
+    "theorems": [T + n for n in ["consteval_no_panic", "tables_panic_free", "consteval_agrees", "div_mod_zero_not_constant",
+        "div_mod_zero_not_constant_expr", "literal_exact", "literal_neg_exact"]],
     "harness": "c13",
     "nontrivial": nontrivial,
     "finding_key": finding_key,
